@@ -14,6 +14,7 @@ environment must render the clean program and another template exactly as the sp
 """
 from __future__ import annotations
 
+import json
 import random
 from concurrent.futures import ProcessPoolExecutor
 
@@ -48,8 +49,128 @@ def _work(args):
     return out, n
 
 
+# -- code -> spec: a fault at every access the engine or the template makes on a data object ------------
+
+class ProbeFault(Exception):
+    """The private exception of the access sweep (deliberately none of the absorbed classes)."""
+
+
+class Svc:
+    """A callable data object whose __getattr__ records every name it is asked for; the k-th access raises."""
+    VALUES = {"title": "T<i>tle", "flag": True, "n": 3, "items": [1, 2]}
+
+    def __init__(self, log, fault_at):
+        object.__setattr__(self, "_log", log)
+        object.__setattr__(self, "_fault_at", fault_at)
+
+    def __call__(self, *a, **kw):
+        return "svc<%d>" % len(a)
+
+    def __getattr__(self, name):
+        log = object.__getattribute__(self, "_log")
+        log.append(name)
+        if len(log) == object.__getattribute__(self, "_fault_at"):
+            exc = ProbeFault(f"access #{len(log)} ({name})")
+            log.append(exc)
+            raise exc
+        if name == "nested":
+            return Svc(log, object.__getattribute__(self, "_fault_at"))
+        if name in Svc.VALUES:
+            return Svc.VALUES[name]
+        raise AttributeError(name)
+
+
+SWEEP_TEMPLATES = [
+    "{{ svc() }}", "{{ svc(1, 2) }}|{{ svc.title }}", "{{ svc.title }}{{ svc['title'] }}{{ svc['nope'] }}", "{% if svc.flag %}{{ svc() }}{% endif %}",
+    "{% for i in [1, 2] %}{{ svc() }}{% endfor %}", "{{ svc.title ~ svc() }}", "{{ svc()|upper }}{{ svc.title|e }}",
+    "{{ svc is callable }}{{ svc.title is defined }}{{ svc.zz is defined }}", "{% macro m(a) %}[{{ a }}]{% endmacro %}{{ m(svc()) }}{{ m(svc.title) }}",
+    "{% set x = svc() %}{{ x }}{% set y %}{{ svc() }}{% endset %}{{ y }}", "{{ svc.nested.title }}{{ svc.nested() }}", "{% call svc() %}body{% endcall %}",
+    "{{ svc.title|default(svc()) }}{{ svc.zz|default(svc(1)) }}", "{% with s = svc %}{{ s() }}{{ s.n + 1 }}{% endwith %}", "{{ svc(svc.title, k=svc.n) }}",
+    "{% for x in svc.items %}{{ x }}{{ svc() }}{% endfor %}", "{{ [svc, 1]|length }}{{ [svc]|first is callable }}", "{% include 'inc' %}",
+    "{% import 'lib' as L %}{{ L.show(svc) }}", "{{ svc }}" ,
+]
+SWEEP_AUX = {"inc": "<{{ svc() }}{{ svc.title }}>", "lib": "{% macro show(o) %}({{ o() }}{{ o.title }}){% endmacro %}"}
+
+
+def _sweep_work(args):
+    core.use_repo()
+    import asyncio
+    import jinja2
+    ti, src, mode, auto = args
+    env = jinja2.Environment(autoescape=auto, enable_async=(mode == "async"), loader=jinja2.DictLoader(dict(SWEEP_AUX, main=src)))
+
+    def run(fault_at):
+        log = []
+        svc = Svc(log, fault_at)
+        try:
+            t = env.get_template("main")
+            if mode == "async":
+                asyncio.run(t.render_async(svc=svc))
+            else:
+                t.render(svc=svc)
+            end = "ok"
+        except BaseException as e:  # noqa
+            raised = [x for x in log if isinstance(x, ProbeFault)]
+            end = "same" if raised and e is raised[0] else "other:" + type(e).__name__
+        names = [x for x in log if isinstance(x, str)]
+        faulted = any(isinstance(x, ProbeFault) for x in log)
+        ev = ["access"] * (len(names) - (1 if faulted else 0)) + (["fault"] if faulted else [])
+        # accesses recorded after the fault (the engine carried on) are kept as events after it
+        if faulted:
+            k = next(i for i, x in enumerate(log) if isinstance(x, ProbeFault))
+            before = sum(1 for x in log[:k] if isinstance(x, str)) - 1
+            after = sum(1 for x in log[k + 1:] if isinstance(x, str))
+            ev = ["access"] * before + ["fault"] + ["access"] * after
+        return {"ev": ev, "end": end.split(":")[0], "detail": end, "names": names, "fault_at": fault_at}
+
+    out = []
+    clean = run(None)
+    out.append(clean)
+    for k in range(1, len(clean["names"]) + 1):
+        out.append(run(k))
+    return [dict(r, template=src, mode=mode, auto=auto) for r in out]
+
+
+def access_sweep(ck):
+    """Every access of the data object in every template, faulted one at a time; TLC validates the recorded runs
+    against DataFault.tla."""
+    jobs = [(ti, src, mode, auto) for ti, src in enumerate(SWEEP_TEMPLATES) for mode in ("sync", "async") for auto in (False, True)]
+    runs = []
+    with ProcessPoolExecutor(max_workers=8) as ex:
+        for res in ex.map(_sweep_work, jobs):
+            runs += res
+    d = core.workdir("C38", "sweep_in")
+    tf = d / "traces.json"
+    tf.write_text(json.dumps([{"ev": r["ev"], "end": r["end"]} for r in runs]))
+    cfg = "INIT Init\nNEXT Next\nINVARIANT Collect\nINVARIANT C38_FaultPropagates\nPOSTCONDITION Post\nCHECK_DEADLOCK FALSE\n"
+    r = core.run_tlc("C38", "DataFault", cfg, name="sweep", workers=1, env={"TRACE_FILE": str(tf)}, timeout=1800)
+    ck.add_tlc(r, f"DataFault.tla: {len(runs)} recorded runs (one fault per data access, plus the fault-free runs)")
+    rej = None
+    for line in r.printed():
+        try:
+            j = json.loads(line)
+        except ValueError:
+            continue
+        if isinstance(j, dict) and "rejected" in j:
+            rej = j["rejected"]
+    if rej is None:
+        raise core.MachineryError("DataFault did not report")
+    items = rej.items() if isinstance(rej, dict) else enumerate(rej, 1)
+    for tid, matched in items:
+        x = runs[int(tid) - 1]
+        name = x["names"][x["fault_at"] - 1] if x["fault_at"] else "-"
+        ck.violation({"kind": "sweep", "template": x["template"], "mode": x["mode"], "auto": x["auto"], "fault_at": x["fault_at"]},
+                     f"[{x['mode']}, autoescape={x['auto']}] {x['template']!r}: the exception raised by the data object at its access "
+                     f"#{x['fault_at']} ({name!r}) did not end the render unchanged: the render ended {x['detail']!r} "
+                     f"(accesses {x['names']})", {"kind": "fault-swallowed-or-changed", "access": name})
+    ck.traces += len(runs)
+    ck.extra["access_sweep_runs"] = len(runs)
+    ck.extra["access_sweep_engine_initiated_names"] = sorted({n for x in runs for n in x["names"]} - set(Svc.VALUES) - {"nested", "zz", "nope"})
+
+
 def run(ck):
     quick = ck.tier == "quick"
+    access_sweep(ck)
     rnd = random.Random(ck.seed + 38)
     bases = [jgen.fault_base_case(rnd, i + 1) for i in range(120 if quick else 2500)]
     obs0, r0 = jrun.spec_results("C38", bases, name="clean", timeout=3000)
@@ -92,6 +213,12 @@ def run(ck):
 
 def replay(ck, rec):
     c = rec["case"]
+    if c.get("kind") == "sweep":
+        res = _sweep_work((0, c["template"], c["mode"], c["auto"]))
+        for x in res:
+            if x["fault_at"] == c["fault_at"] and x["end"] != "same":
+                ck.violation(c, f"still ends {x['detail']!r}", rec.get("fingerprint"))
+        return
     obs, r = jrun.spec_results("C38", [c["case"], c["base"]], name="replay", workers=2)
     mism, n = _work((c["case"], obs[(c["case"]["id"], 1)], c["base"], obs[(c["base"]["id"], 1)]))
     for m in mism:
